@@ -172,6 +172,8 @@ func (s *Sorts) sortOf(t types.Type) string {
 			s.sliceEl[name] = el
 			s.sliceGo[name] = tt.Elem()
 			s.addDecl(name, fmt.Sprintf("(declare-datatypes ((%s 0)) (((mk_%s (arr_%s Int) (off_%s Int) (len_%s Int) (cap_%s Int)))))", name, name, name, name, name, name))
+			// element read through a slice: an uninterpreted symbol (usable as a quantifier trigger) tied to the heap by its defining axiom
+			s.addDecl("sget_"+name, fmt.Sprintf("(declare-fun sget_%s ((Array Int (Array Int %s)) %s Int) %s)\n(assert (forall ((h (Array Int (Array Int %s))) (s %s) (i Int)) (! (= (sget_%s h s i) (select (select h (arr_%s s)) (+ (off_%s s) i))) :pattern ((sget_%s h s i)))))", name, el, name, el, el, name, name, name, name, name))
 		}
 		return name
 	case *types.Array:
